@@ -8,6 +8,7 @@ Steps (in a fresh scratch worktree of /repo under /tmp, removed afterwards):
   4. the given test selection passes with the patch (failures that also occur on the clean tree are
      ignored: compared by test id), 5. files copied to /verif/seeded/<id>/ with meta.json.
 """
+import hashlib
 import json
 import os
 import shutil
@@ -86,7 +87,8 @@ def main(argv):
             rg = run(f"{PY} -m pytest -q -p no:cacheprovider --timeout=900 -k grpc --junitxml=/tmp/{sid}_pg.xml tests/storages_tests", wt)
             fp |= junit_failures(f"/tmp/{sid}_pg.xml") or set()
         run("git checkout -- .", wt)
-        base_file = f"/tmp/triage_base_{abs(hash(tests)) % 10**8}_{int(grpc)}.json"
+        digest = hashlib.sha1((tests + run("git rev-parse HEAD", wt).stdout).encode()).hexdigest()[:10]
+        base_file = f"/tmp/triage_base_{digest}_{int(grpc)}.json"
         if os.path.exists(base_file):
             fb = set(json.load(open(base_file)))
         else:
